@@ -517,7 +517,7 @@ def _static_gas(op, arg):
         return 1
     if op == "PUSH":
         return 2 if arg == 0 and PUSH0_AVAILABLE[0] else 3
-    if op in ENV0 or op in ("POP", "GAS", "PC", "MSIZE", "PUSHSIZE"):
+    if op in ENV0 or op in ("POP", "GAS", "PC", "MSIZE"):
         return 5 if op == "SELFBALANCE" else 2
     if op.startswith("DUP") or op.startswith("SWAP") or op in PSEUDO:
         return 3
